@@ -392,7 +392,7 @@ func runOne(t *testing.T, sc scenario, ch *sched.Chooser) (res sched.Result) {
 		trace := append(append([]string{}, e.Trace...), e.CanonLog()...)
 		cancel(nil)
 		released = true
-		if leaked := e.Teardown(); len(leaked) > 0 {
+		if leaked := sched.ShimLeaks(e.Teardown()); len(leaked) > 0 {
 			fail("leak", "after DoBatch returned, every replica call returned and the context was cancelled, goroutines are still blocked for ever at %v", leaked)
 		}
 		res = sched.Result{Violation: viol, Key: key, Outcome: out + strings.Join(oc, ","), Trace: trace}
